@@ -278,8 +278,9 @@ io_buf_realloc(io_buf_p *pio_buf, const uint32_t flags, const size_t size) {
 	if (io_buf->offset > size) {
 		io_buf->offset = size;
 	}
-	if (io_buf->transfer_size > io_buf->used) {
-		io_buf->transfer_size = io_buf->used;
+	/* Window is [offset, offset + transfer_size) and must be inside buf. */
+	if (io_buf->transfer_size > (size - io_buf->offset)) {
+		io_buf->transfer_size = (size - io_buf->offset);
 	}
 
 	return (0);
